@@ -1,11 +1,75 @@
 (* C11 -- ill-formed grammars are rejected at generation time; sound ones terminate. Statements only.
-   (The verdict parity generator <-> pest_meta validator and "emits code that compiles" compare real programs
-    and are decided by validation runs, see vlib/props/C11.py; the termination theorem is added below once
-    Proofs/Termination.v is complete.) *)
+   The verdict parity generator <-> pest_meta validator and "emits code that compiles" compare real programs
+   and are decided by validation runs (vlib/props/C11.py).  The termination half is the theorem below:
+   "well-founded" is made precise as acceptance by the decidable certificate checker [wf_cert] (Model/Wf.v):
+   nullability is a post-fixpoint, every call reachable before input is consumed has a smaller rank, every
+   repetition body (and the implicit skip's element) is not nullable, the rule list is closed. *)
 From Coq Require Import List NArith.
-From PT Require Import Model.Base Model.Stack Model.Texpr Model.Sem Proofs.ErrorLocation.
+From PT Require Import Model.Base Model.Stack Model.Texpr Model.Sem Model.Wf Model.Ast Model.GenEnv.
+From PT Require Import Proofs.StackInv Proofs.BoundaryOps Proofs.Boundary Proofs.ErrorLocation Proofs.Termination Proofs.PegMain.
+Import ListNotations.
+
+(* every parse (and every check) of every expression from every good state returns, within an explicit fuel bound *)
+Theorem C11_terminates : forall E rules c, env_ok E -> wf_cert rules (e_rules E) (e_skip E) c = true ->
+  forall e inh pos st gs,
+  lits_ok e -> expr_ok c rules e = true ->
+  good_cur (e_inp E) pos -> good_state (e_inp E) st -> SInv (stk st) gs ->
+  forall fuel, fuel_bound rules (e_rules E) (e_skip E) c e (i_end (e_inp E) - pos) <= fuel ->
+  tparse E fuel inh e pos st <> Fuel /\ tcheck E fuel inh e pos st <> Fuel.
+Proof. exact c11_terminates. Qed.
+Print Assumptions C11_terminates.
+
+(* ... and what it returns is a value or a failure: neither out-of-fuel nor a panic, cursor inside the input *)
+Theorem C11_returns : forall E rules c, env_ok E -> wf_cert rules (e_rules E) (e_skip E) c = true ->
+  forall e inh pos st gs,
+  lits_ok e -> expr_ok c rules e = true ->
+  good_cur (e_inp E) pos -> good_state (e_inp E) st -> SInv (stk st) gs ->
+  forall fuel, fuel_bound rules (e_rules E) (e_skip E) c e (i_end (e_inp E) - pos) <= fuel ->
+  match tparse E fuel inh e pos st with
+  | Ok (pos', _) _ => pos <= pos' <= i_end (e_inp E)
+  | Fail _ => True
+  | Panic => False
+  | Fuel => False
+  end.
+Proof. exact c11_returns. Qed.
+Print Assumptions C11_returns.
+
+(* the four entry points of every rule of the grammar *)
+Theorem C11_entry_points : forall E rules c, env_ok E -> wf_cert rules (e_rules E) (e_skip E) c = true ->
+  forall r, In r rules ->
+  forall fuel,
+  fuel_bound rules (e_rules E) (e_skip E) c (TRule r SkOn) (i_end (e_inp E) - i_start (e_inp E)) <= fuel ->
+  try_parse_partial E fuel r <> Fuel /\ try_check_partial E fuel r <> Fuel /\
+  try_parse E fuel r <> Fuel /\ try_check E fuel r <> Fuel.
+Proof. exact c11_entry_points. Qed.
+Print Assumptions C11_entry_points.
+
+(* why repetitions end: a successful run of a non-nullable expression moves the cursor *)
+Theorem C11_progress : forall E rules c, env_ok E -> wf_cert rules (e_rules E) (e_skip E) c = true ->
+  forall fuel inh e pos st gs pos' t st',
+  lits_ok e -> expr_ok c rules e = true ->
+  good_cur (e_inp E) pos -> good_state (e_inp E) st -> SInv (stk st) gs ->
+  may_be_empty c e = false ->
+  tparse E fuel inh e pos st = Ok (pos', t) st' -> pos < pos'.
+Proof. exact c11_progress. Qed.
+Print Assumptions C11_progress.
 
 (* the implicit skip of the full entry points can only loop or succeed, never reject *)
 Theorem C11_trailing_skip_never_fails : forall E fuel pos st st', top_skip_p E fuel pos st <> Fail st'.
 Proof. exact top_skip_never_fails. Qed.
 Print Assumptions C11_trailing_skip_never_fails.
+
+(* the checker accepts a real grammar (with its inferred certificate) and rejects left recursion through `?` *)
+Theorem C11_example :
+  let E := env_of 0 ex_g (inp_of_str ex_in1) (fun _ _ => false) in
+  wf_cert [1; 2; 3]%N (e_rules E) (e_skip E) (infer_cert [1; 2; 3]%N (e_rules E) (e_skip E)) = true /\
+  N.of_nat (fuel_bound [1; 2; 3]%N (e_rules E) (e_skip E) (infer_cert [1; 2; 3]%N (e_rules E) (e_skip E))
+              (TRule 1 SkOn) 7) = 158%N.
+Proof. exact wf_cert_example. Qed.
+Print Assumptions C11_example.
+
+Theorem C11_rejects_left_recursion :
+  let E := env_of 0 lr_g (inp_of_str []) (fun _ _ => false) in
+  wf_cert [1]%N (e_rules E) (e_skip E) (infer_cert [1]%N (e_rules E) (e_skip E)) = false.
+Proof. exact wf_cert_rejects_left_recursion. Qed.
+Print Assumptions C11_rejects_left_recursion.
